@@ -63,8 +63,13 @@ fn workers() -> usize {
     std::env::var("VERIF_WORKERS").ok().and_then(|s| s.parse().ok()).unwrap_or(16)
 }
 
+/// root of the verification tree this binary belongs to (set by ./check; /verif by default)
+fn verif_root() -> String {
+    std::env::var("VERIF_ROOT").unwrap_or_else(|_| "/verif".to_string())
+}
+
 fn out_dir() -> String {
-    std::env::var("VERIF_OUT").unwrap_or_else(|_| "/verif/out".to_string())
+    std::env::var("VERIF_OUT").unwrap_or_else(|_| format!("{}/out", verif_root()))
 }
 
 fn cmd_check(id: &str, tier: &str) -> i32 {
@@ -100,7 +105,7 @@ fn cmd_check(id: &str, tier: &str) -> i32 {
         check::run_batch(seed, b, workers(), deadline, &agg);
     }
     let mut agg = agg.into_inner().unwrap();
-    let known = check::load_known("/verif/KNOWN_FINDINGS.txt");
+    let known = check::load_known(&format!("{}/KNOWN_FINDINGS.txt", verif_root()));
     let mut exit = 0;
     if !agg.harness_errors.is_empty() {
         for e in agg.harness_errors.iter().take(5) {
@@ -170,7 +175,7 @@ fn cmd_check(id: &str, tier: &str) -> i32 {
         "wall_s": wall,
         "violations": n_viol,
     });
-    let edir = std::env::var("VERIF_EVIDENCE_DIR").unwrap_or_else(|_| "/verif/evidence".to_string());
+    let edir = std::env::var("VERIF_EVIDENCE_DIR").unwrap_or_else(|_| format!("{}/evidence", verif_root()));
     let _ = std::fs::create_dir_all(&edir);
     std::fs::write(format!("{edir}/{id}.json"), serde_json::to_string_pretty(&evidence).unwrap()).expect("write evidence");
     eprintln!(
